@@ -122,6 +122,118 @@ def _branches(stmts, var):
     return out, els
 
 
+def _check_wrapper(fn, n_in, n_out):
+    """One `def wrapper(...)`: its body must be one of the canonical forms."""
+    if not isinstance(fn, ast.FunctionDef) or fn.name != 'wrapper' or fn.decorator_list:
+        raise ExtractionError('({},{}) does not define a plain `wrapper`'.format(n_in, n_out))
+    args = _u(fn.args)
+    text = '\n'.join(_u(s) for s in _strip_doc(fn.body))
+    if text not in WRAPPER_FORMS:
+        raise ExtractionError('wrapper ({},{}) has an unknown body:\n{}'.format(
+            n_in, n_out, text))
+    rule, fwd2 = WRAPPER_FORMS[text]
+    want_args = 'self, x2, out=None, **kwargs' if fwd2 else 'self, out=None, **kwargs'
+    if args != want_args or fwd2 != (n_in == 2):
+        raise ExtractionError('wrapper ({},{}) signature {}'.format(n_in, n_out, args))
+    return rule
+
+
+WRAP_TAIL = ['wrapper.__name__ = wrapper.__qualname__ = name', 'wrapper.__doc__ = doc',
+             'return wrapper']
+
+
+def _rules_from_chain(wrap):
+    """`if n_in == 1: if n_out == 1: def wrapper ... elif ... else: raise NotImplementedError`"""
+    body = _strip_doc(wrap.body)
+    if len(body) < 2 or _u(body[0]) != 'ufunc = getattr(np, name)':
+        raise ExtractionError('wrapped ufunc is not getattr(np, name)')
+    if [_u(s) for s in body[2:]] != WRAP_TAIL:
+        raise ExtractionError('wrap_ufunc_base tail changed')
+    rules = []
+    outer, els = _branches([body[1]], 'n_in')
+    if [_u(s) for s in els] != ['raise NotImplementedError']:
+        raise ExtractionError('n_in else branch changed')
+    for n_in, b in outer:
+        inner, els2 = _branches(b, 'n_out')
+        if [_u(s) for s in els2] != ['raise NotImplementedError']:
+            raise ExtractionError('n_out else branch changed')
+        for n_out, bb in inner:
+            if len(bb) != 1:
+                raise ExtractionError('branch ({},{}) has extra statements'.format(n_in, n_out))
+            rules.append((n_in, n_out, _check_wrapper(bb[0], n_in, n_out)))
+    return rules
+
+
+def _rules_from_table(tree, wrap):
+    """`make = TABLE.get((n_in, n_out)); if make is None: raise NotImplementedError;
+    wrapper = make(ufunc)` with TABLE a module-level dict literal `{(i, o): factory}` that
+    nothing else touches, each factory `def f(ufunc): def wrapper(...): <canonical>; return
+    wrapper` referenced nowhere else."""
+    body = _strip_doc(wrap.body)
+    if len(body) != 4 + len(WRAP_TAIL) or _u(body[0]) != 'ufunc = getattr(np, name)':
+        raise ExtractionError('not the table form')
+    if [_u(s) for s in body[4:]] != WRAP_TAIL:
+        raise ExtractionError('wrap_ufunc_base tail changed')
+    st = body[1]
+    if not (isinstance(st, ast.Assign) and len(st.targets) == 1 and
+            isinstance(st.targets[0], ast.Name) and isinstance(st.value, ast.Call) and
+            isinstance(st.value.func, ast.Attribute) and st.value.func.attr == 'get' and
+            isinstance(st.value.func.value, ast.Name) and not st.value.keywords and
+            [_u(a) for a in st.value.args] == ['(n_in, n_out)']):
+        raise ExtractionError('no `<var> = <TABLE>.get((n_in, n_out))`')
+    var, table = st.targets[0].id, st.value.func.value.id
+    if var in ('ufunc', 'name', 'n_in', 'n_out', 'doc', 'wrapper', 'np', table):
+        raise ExtractionError('local name {} shadows something'.format(var))
+    if _u(body[2]) != 'if {} is None:\n    raise NotImplementedError'.format(var):
+        raise ExtractionError('missing `if {} is None: raise NotImplementedError`'.format(var))
+    if _u(body[3]) != 'wrapper = {}(ufunc)'.format(var):
+        raise ExtractionError('missing `wrapper = {}(ufunc)`'.format(var))
+    # the table: exactly one module-level assignment of a dict literal, no other use anywhere
+    assigns = [n for n in tree.body if isinstance(n, ast.Assign) and len(n.targets) == 1 and
+               isinstance(n.targets[0], ast.Name) and n.targets[0].id == table]
+    if len(assigns) != 1 or not isinstance(assigns[0].value, ast.Dict):
+        raise ExtractionError('{} is not one module-level dict literal'.format(table))
+    uses = [n for n in ast.walk(tree) if isinstance(n, ast.Name) and n.id == table]
+    if len(uses) != 2:    # the assignment target and the `.get` above
+        raise ExtractionError('{} is referenced elsewhere (may be mutated)'.format(table))
+    for n in ast.walk(tree):
+        if isinstance(n, (ast.Global, ast.Nonlocal)) and table in n.names:
+            raise ExtractionError('{} is declared global somewhere'.format(table))
+        if isinstance(n, ast.Constant) and n.value == table:
+            raise ExtractionError('{} may be reached by name'.format(table))
+        if isinstance(n, ast.Call) and _u(n.func) in ('globals', 'vars', 'locals', 'exec',
+                                                      'eval', 'setattr'):
+            if _u(n.func) != 'setattr' or _u(n.args[0]) not in ('TensorSpaceUfuncs',
+                                                                'ProductSpaceUfuncs'):
+                raise ExtractionError('module uses {}'.format(_u(n.func)))
+    funcs = {}
+    for n in tree.body:
+        if isinstance(n, ast.FunctionDef):
+            funcs.setdefault(n.name, []).append(n)
+    rules = []
+    d = assigns[0].value
+    for k, v in zip(d.keys, d.values):
+        if not (isinstance(k, ast.Tuple) and len(k.elts) == 2 and all(
+                isinstance(e, ast.Constant) and type(e.value) is int for e in k.elts)):
+            raise ExtractionError('table key {} is not a pair of int literals'.format(
+                _u(k) if k is not None else '**'))
+        n_in, n_out = k.elts[0].value, k.elts[1].value
+        if not isinstance(v, ast.Name) or len(funcs.get(v.id, [])) != 1:
+            raise ExtractionError('table value {} is not one module-level function'.format(_u(v)))
+        if len([n for n in ast.walk(tree) if isinstance(n, ast.Name) and n.id == v.id]) != 1:
+            raise ExtractionError('factory {} is referenced elsewhere'.format(v.id))
+        f = funcs[v.id][0]
+        fb = _strip_doc(f.body)
+        if _u(f.args) != 'ufunc' or f.decorator_list or len(fb) != 2 or \
+                _u(fb[1]) != 'return wrapper':
+            raise ExtractionError('factory {} is not `def f(ufunc): def wrapper...; return '
+                                  'wrapper`'.format(v.id))
+        rules.append((n_in, n_out, _check_wrapper(fb[0], n_in, n_out)))
+    if len(set((a, b) for a, b, _ in rules)) != len(rules):
+        raise ExtractionError('duplicate keys in ' + table)
+    return rules
+
+
 def extract(src):
     tree = ast.parse(src)
     raw = None
@@ -146,36 +258,18 @@ def extract(src):
         raise ExtractionError('UFUNCS construction loop changed')
     if REGISTER_LOOP.format(cls='TensorSpaceUfuncs', wrap='wrap_ufunc_base') not in loops:
         raise ExtractionError('TensorSpaceUfuncs registration loop changed')
-    # wrap_ufunc_base
-    body = _strip_doc(wrap.body)
-    if _u(body[0]) != 'ufunc = getattr(np, name)':
-        raise ExtractionError('wrapped ufunc is not getattr(np, name): ' + _u(body[0]))
-    tail = [_u(s) for s in body[2:]]
-    if tail != ['wrapper.__name__ = wrapper.__qualname__ = name', 'wrapper.__doc__ = doc',
-                'return wrapper']:
-        raise ExtractionError('wrap_ufunc_base tail changed')
-    rules = []
-    outer, els = _branches([body[1]], 'n_in')
-    if [_u(s) for s in els] != ['raise NotImplementedError']:
-        raise ExtractionError('n_in else branch changed')
-    for n_in, b in outer:
-        inner, els2 = _branches(b, 'n_out')
-        if [_u(s) for s in els2] != ['raise NotImplementedError']:
-            raise ExtractionError('n_out else branch changed')
-        for n_out, bb in inner:
-            if len(bb) != 1 or not isinstance(bb[0], ast.FunctionDef) or bb[0].name != 'wrapper':
-                raise ExtractionError('branch ({},{}) does not define wrapper'.format(n_in, n_out))
-            fn = bb[0]
-            args = _u(fn.args)
-            text = '\n'.join(_u(s) for s in _strip_doc(fn.body))
-            if text not in WRAPPER_FORMS:
-                raise ExtractionError('wrapper ({},{}) has an unknown body:\n{}'.format(
-                    n_in, n_out, text))
-            rule, fwd2 = WRAPPER_FORMS[text]
-            want_args = 'self, x2, out=None, **kwargs' if fwd2 else 'self, out=None, **kwargs'
-            if args != want_args or fwd2 != (n_in == 2):
-                raise ExtractionError('wrapper ({},{}) signature {}'.format(n_in, n_out, args))
-            rules.append((n_in, n_out, rule))
+    # wrap_ufunc_base: nested if/elif chain, or a lookup in a table of wrapper factories
+    try:
+        rules = _rules_from_chain(wrap)
+        form = 'chain'
+    except ExtractionError as e_chain:
+        try:
+            rules = _rules_from_table(tree, wrap)
+            form = 'table'
+        except ExtractionError as e_table:
+            raise ExtractionError('wrap_ufunc_base: neither the if/elif chain ({}) nor the '
+                                  'table-of-factories form ({})'.format(e_chain, e_table))
+    extract.last_form = form
     # reductions
     reds = []
     for node in tcls.body:
@@ -333,16 +427,54 @@ def render(raw, rules, reds, table, prules, preds):
     return '\n'.join(L) + '\n'
 
 
+def derive_live():
+    """Behavioural derivation of the legacy tables from the LIVE module of the tree under test
+    (tools/extract/ufunc_legacy_live.py in a subprocess with PYTHONPATH = that tree)."""
+    import json
+    import subprocess
+    import sys
+    env = dict(os.environ)
+    env['PYTHONPATH'] = core.REPO
+    env['PYTHONDONTWRITEBYTECODE'] = '1'
+    script = os.path.join(os.path.dirname(os.path.abspath(__file__)), 'ufunc_legacy_live.py')
+    p = subprocess.run([sys.executable, script], env=env, stdout=subprocess.PIPE,
+                       stderr=subprocess.PIPE, text=True, timeout=300, cwd='/')
+    if p.returncode != 0:
+        raise ExtractionError('live derivation failed: ' + (p.stderr.strip()[-300:] or
+                                                            'rc={}'.format(p.returncode)))
+    d = json.loads(p.stdout)
+    return (d['raw'], [tuple(t) for t in d['rules']], [tuple(t) for t in d['reds']],
+            [tuple(t) for t in d['prules']], [tuple(t) for t in d['preds']])
+
+
+LAST_SOURCE = {'source': None, 'why': None}
+
+
 def regenerate():
     path = os.path.join(core.REPO, 'odl', 'util', 'ufuncs.py')
     with open(path) as f:
         src = f.read()
-    raw, rules, reds = extract(src)
-    prules, preds = extract_power(src)
+    LAST_SOURCE.update(source='none (extraction failed)', why=None)
+    try:
+        raw, rules, reds = extract(src)
+        prules, preds = extract_power(src)
+        source, why = 'ast:' + getattr(extract, 'last_form', 'chain'), None
+    except (ExtractionError, SyntaxError, IndexError, AttributeError, TypeError) as e:
+        # the source no longer has a form the translator understands: derive the same tables
+        # behaviourally from the live module; fail (closed) if that does not succeed either
+        why = '{}: {}'.format(type(e).__name__, str(e)[:300])
+        LAST_SOURCE.update(why=why)
+        try:
+            raw, rules, reds, prules, preds = derive_live()
+        except ExtractionError as e2:
+            raise ExtractionError('{}; and {}'.format(why, e2))
+        source = 'live'
+    LAST_SOURCE.update(source=source, why=why)
     table = numpy_table()
-    text = render(raw, rules, reds, table, prules, preds)
+    text = render(raw, sorted(rules), reds, table, sorted(prules), preds)
     out = os.path.join(core.LEAN, 'OdlModel', 'Gen', 'UfuncLegacy.lean')
     changed = core.write_if_changed(out, text)
-    return changed, ('{} legacy names, {} wrapper rules, {} reductions, {} product-space rules, '
-                     '{} product-space reductions, {} numpy ufuncs'.format(
-                         len(raw), len(rules), len(reds), len(prules), len(preds), len(table)))
+    return changed, ('source={}; {} legacy names, {} wrapper rules, {} reductions, {} '
+                     'product-space rules, {} product-space reductions, {} numpy ufuncs'.format(
+                         source, len(raw), len(rules), len(reds), len(prules), len(preds),
+                         len(table)))
